@@ -19,4 +19,4 @@ open BeffVerif.C16
 #print axioms BeffVerif.C16N.names_complete
 #print axioms BeffVerif.C16N.names_order_independent
 #print axioms BeffVerif.C16N.no_mark_left
-#print axioms BeffVerif.C16N.functional'_of_no_union
+#print axioms BeffVerif.C16N.functionalN_of_no_union
